@@ -11,6 +11,7 @@ CONSTANTS
   DDs = {"diamond"}
   DDVft = {"no"}
   B1Names = {"b1"}
+  SameName = FALSE
   Ptrs = {4, 8}
   Lead = {FALSE}
   EmptyBlocks = {FALSE}
